@@ -168,7 +168,10 @@ fn fnv(s: &str) -> u64 {
 fn run_check(id: &str, thorough: bool) -> i32 {
     let t0 = Instant::now();
     let seed: u64 = std::env::var("VERIF_SEED").ok().and_then(|s| s.parse().ok()).unwrap_or(0);
-    let jobs = suite::jobs(id, thorough);
+    let mut jobs = suite::jobs(id, thorough);
+    if let Ok(only) = std::env::var("VERIF_ONLY") {
+        jobs.retain(|j| j.name().contains(&only));
+    }
     if jobs.is_empty() {
         eprintln!("no check registered for {}", id);
         return 2;
